@@ -122,7 +122,8 @@ package plugin
 //@   requires wfstep(r) && nolocks() && completions(step.RunningStep(r)) == 0 && stageIdx(string(stageToMarkUnresolvable)) >= 0
 //@   requires r.currentStage != StageIDClosed && reported(step.RunningStep(r), "closed") == 0
 //@   requires priorStageFailed ==> reported(step.RunningStep(r), string(r.currentStage)) != 1
-//@   requires !priorStageFailed ==> reported(step.RunningStep(r), string(r.currentStage)) == 0
+//@   requires !priorStageFailed ==> reported(step.RunningStep(r), string(r.currentStage)) == 0 && \
+//@       stageIdx(string(r.currentStage)) < stageIdx(string(stageToMarkUnresolvable))
 //@   requires forall g string :: stageIdx(g) >= stageIdx(string(stageToMarkUnresolvable)) ==> reported(step.RunningStep(r), g) != 1
 //@   modifies r.currentStage, r.state, ghost reported, ghost completions
 //@   ensures completions(step.RunningStep(r)) == 1 && reported(step.RunningStep(r), "closed") == 1
